@@ -52,3 +52,14 @@ Theorem C02_nonvacuous :
   In (1, k7, Some 7) (dlv nat nat nat S3) /\ In (2, k7, Some 7) (dlv nat nat nat S3).
 Proof. exact agreement_nonvacuous. Qed.
 Print Assumptions C02_nonvacuous.
+
+(* The voucher count of the code (all N-1 other participants) cannot be lowered to N-1-f: N = 4, sender 0 and member 3
+   Byzantine, parties 1 and 2 configured to hand over on 2 vouchers are split; on 3 vouchers the same scripts hand over nothing
+   (the "split vouchers" schedule of the attack stream runs exactly this against the real code). *)
+Theorem C02_quorum_tight :
+  delivered (run (cfg4 1 3) [(0, Bcast 7 0); (3, Ack 7 0 0)]) = [(0, 0, Some 7)] /\
+  delivered (run (cfg4 2 3) [(0, Bcast 9 0); (3, Ack 9 0 0)]) = [(0, 0, Some 9)] /\
+  delivered (run (cfg4 1 4) [(0, Bcast 7 0); (3, Ack 7 0 0)]) = [] /\
+  delivered (run (cfg4 2 4) [(0, Bcast 9 0); (3, Ack 9 0 0)]) = [].
+Proof. exact quorum_tight. Qed.
+Print Assumptions C02_quorum_tight.
